@@ -175,6 +175,7 @@ type pkgInfo struct {
 	lockFirst map[string]string
 	lockers   map[string]bool
 	calls     map[string]map[string]bool
+	funcs     map[string]*ast.FuncDecl
 	err       error
 }
 
@@ -183,7 +184,8 @@ var sharedImporter = importer.ForCompiler(fset, "source", nil)
 
 func load(repo, dir string) *pkgInfo {
 	pi := &pkgInfo{consts: map[string]string{}, chans: map[string]string{}, waits: map[string]bool{},
-		lockFirst: map[string]string{}, lockers: map[string]bool{}, calls: map[string]map[string]bool{}}
+		lockFirst: map[string]string{}, lockers: map[string]bool{}, calls: map[string]map[string]bool{},
+		funcs: map[string]*ast.FuncDecl{}}
 	full := filepath.Join(repo, dir)
 	pkgs, err := parser.ParseDir(fset, full, func(fi os.FileInfo) bool {
 		return !strings.HasSuffix(fi.Name(), "_test.go")
@@ -264,6 +266,7 @@ func methodCall(e ast.Expr) string {
 
 func recordLocking(pi *pkgInfo, d *ast.FuncDecl) {
 	fn := d.Name.Name
+	pi.funcs[fn] = d
 	pi.calls[fn] = map[string]bool{}
 	if len(d.Body.List) >= 2 {
 		if es, ok := d.Body.List[0].(*ast.ExprStmt); ok {
@@ -298,6 +301,70 @@ func recordLocking(pi *pkgInfo, d *ast.FuncDecl) {
 		}
 		return true
 	})
+}
+
+// filterShape: rtcmfilter's writeRTCMMessages skips a message exactly when its type is NonRTCMMessage and writes
+// message.RawData: the function has one continue statement, guarded by that comparison, and its only Write call
+// has that argument.
+func filterShape(pi *pkgInfo) bool {
+	d := pi.funcs["writeRTCMMessages"]
+	if d == nil {
+		return false
+	}
+	continues, guarded, writes, goodWrites := 0, 0, 0, 0
+	ast.Inspect(d.Body, func(m ast.Node) bool {
+		switch x := m.(type) {
+		case *ast.BranchStmt:
+			if x.Tok == token.CONTINUE {
+				continues++
+			}
+		case *ast.IfStmt:
+			if len(x.Body.List) == 1 && x.Else == nil && x.Init == nil {
+				if b, ok := x.Body.List[0].(*ast.BranchStmt); ok && b.Tok == token.CONTINUE &&
+					types.ExprString(x.Cond) == "message.MessageType == utils.NonRTCMMessage" {
+					guarded++
+				}
+			}
+		case *ast.CallExpr:
+			if sel, ok := x.Fun.(*ast.SelectorExpr); ok && sel.Sel.Name == "Write" {
+				writes++
+				if len(x.Args) == 1 && types.ExprString(x.Args[0]) == "message.RawData" {
+					goodWrites++
+				}
+			}
+		}
+		return true
+	})
+	return continues == 1 && guarded == 1 && writes == 1 && goodWrites == 1
+}
+
+// fanoutShape: appcore's HandleMessagesUntilEOF sends every message to every non-nil channel in index order:
+//   for i := range appCore.Channels { if appCore.Channels[i] != nil { appCore.Channels[i] <- message } }
+// and that is the only send statement of the function.
+func fanoutShape(pi *pkgInfo) bool {
+	d := pi.funcs["HandleMessagesUntilEOF"]
+	if d == nil {
+		return false
+	}
+	sends, good := 0, 0
+	ast.Inspect(d.Body, func(m ast.Node) bool {
+		switch x := m.(type) {
+		case *ast.SendStmt:
+			sends++
+		case *ast.RangeStmt:
+			if types.ExprString(x.X) == "appCore.Channels" && x.Value == nil && len(x.Body.List) == 1 {
+				if is, ok := x.Body.List[0].(*ast.IfStmt); ok && is.Else == nil && is.Init == nil && len(is.Body.List) == 1 &&
+					types.ExprString(is.Cond) == "appCore.Channels[i] != nil" {
+					if ss, ok := is.Body.List[0].(*ast.SendStmt); ok &&
+						types.ExprString(ss.Chan) == "appCore.Channels[i]" && types.ExprString(ss.Value) == "message" {
+						good++
+					}
+				}
+			}
+		}
+		return true
+	})
+	return sends == 1 && good == 1
 }
 
 // wholeBodyLocked: the function runs entirely under the given lock and neither it nor a function of the same
@@ -433,6 +500,9 @@ func main() {
 		fmt.Fprintf(&b, "Definition %s : bool := %v.\n", w.coq, get(w.dir).waits[w.fn])
 	}
 	b.WriteString("\n(* circular queue: Add runs entirely under the write lock, GetMessages entirely under the read lock,\n   neither takes the lock again (directly or through a function of the package) *)\n")
+	b.WriteString("\n(* rtcmfilter's writer skips exactly the NonRTCMMessage messages and writes RawData; appcore fans every\n   message out to every non-nil channel in index order *)\n")
+	fmt.Fprintf(&b, "Definition filter_skips_only_nonrtcm : bool := %v.\n", filterShape(get("apps/rtcmfilter")))
+	fmt.Fprintf(&b, "Definition fanout_all_non_nil : bool := %v.\n", fanoutShape(get("apps/appcore")))
 	cq := get("apps/proxy/circular_queue")
 	fmt.Fprintf(&b, "Definition queue_add_locked : bool := %v.\n", wholeBodyLocked(cq, "Add", "Lock"))
 	fmt.Fprintf(&b, "Definition queue_get_locked : bool := %v.\n", wholeBodyLocked(cq, "GetMessages", "RLock"))
